@@ -70,6 +70,9 @@ def build_real(nodes: list[Node]) -> None:
             nd.real = CustomRootType(reference=ref, fields=fields)
         else:
             nd.real = BaseModel(reference=ref, fields=fields, base_classes=[b.real.reference for b in nd.bases])
+        # the constructor drops members whose name repeats an earlier one (`_validate_fields`): the input of the pass is
+        # what the model holds now
+        nd.fields = observed(nd.real)
 
 
 def observed(model) -> list[tuple]:
